@@ -776,7 +776,18 @@ where
                 let mut ptx = ProcessTransaction::new(*ps, TransactionBehavior::Immediate)
                     .map_err(RedoError::opaque_error)?;
                 ptx.set_drop_behavior(DropBehavior::Commit);
-                let mut f = state::File::from_name(&mut ptx, t, true)?;
+                let mut f = match state::File::from_name(&mut ptx, t, true) {
+                    Ok(f) => f,
+                    Err(e) => {
+                        // A name that cannot be resolved (a path through a
+                        // regular file, a symlink loop) is this target's
+                        // failure, not the end of the whole command: jobs
+                        // already running are waited for and recorded, and with
+                        // --keep-going the remaining targets are still built.
+                        result.set(Err(e));
+                        continue;
+                    }
+                };
                 if !seen_ids.insert(f.id()) {
                     // Another spelling of a target we have already handled.
                     continue;
